@@ -83,13 +83,14 @@ def probe_document():
                       P(f"zqc_{s}_q_model", "query", {"$ref": REF + "ZqcSub"}), P(f"zqc_{s}_q_union", "query", {"anyOf": [D, {"type": "integer"}]}),
                       P(f"zqc_{s}_q_enum", "query", {"$ref": REF + "ZqcEnum"}), P(f"zqc_{s}_q_null", "query", {"type": ["string", "null"]}),
                       P(f"zqc_{s}_h_req", "header", {"type": "string"}, True), P(f"zqc_{s}_h_bool", "header", {"type": "boolean"}), P(f"zqc_{s}_h_int", "header", {"type": "integer"}),
-                      P(f"zqc_{s}_h_date", "header", D), P(f"zqc_{s}_h_enum", "header", {"$ref": REF + "ZqcEnum"}),
+                      P(f"zqc_{s}_h_uuid", "header", {"type": "string", "format": "uuid"}), P(f"zqc_{s}_h_enum", "header", {"$ref": REF + "ZqcEnum"}), P(f"zqc_{s}_h_float", "header", {"type": "number"}),
+                      P(f"zqc_{s}_c_date", "cookie", D),
                       P(f"zqc_{s}_c_req", "cookie", {"type": "string"}, True), P(f"zqc_{s}_c_opt", "cookie", {"type": "string"})]
     many = {"200": J({"$ref": REF + "ZqcModel"}), "201": J({"type": "array", "items": {"$ref": REF + "ZqcSub"}}),
             "202": {"description": "t", "content": {"text/plain": {"schema": {"type": "string"}}}},
             "203": {"description": "b", "content": {"application/octet-stream": {"schema": {"type": "string", "format": "binary"}}}},
             "204": {"description": "n"}, "400": J({"$ref": REF + "ZqcEnum"}), "409": J({"anyOf": [{"$ref": REF + "ZqcSub"}, D, {"type": "null"}]}),
-            "410": J({"type": "integer"}), "418": J(D), "default": J({"$ref": REF + "ZqcOpen"})}
+            "410": J({"type": "integer"}), "418": J(D), "500": J({"$ref": REF + "ZqcOpen"})}
     paths = {
         "/zqc/a/{zqc_a_path}": {"get": {"operationId": "zqc_op_nobody", "tags": ["zqctag"], "parameters": allp("a"), "responses": many,
                                         "summary": "zqc summary", "description": "zqc description"}},
@@ -188,7 +189,7 @@ def symtable_names(tab):
         out.add(s.get_name())
     for c in tab.get_children():
         out |= symtable_names(c)
-    return {n for n in out if not n.startswith(".")}
+    return {n for n in out if not n.startswith(".") and n != "__class__"}     # __class__: implicit cell of zero-argument super()
 
 
 def scan_module(kind, src, fname, scopes, problems):
@@ -283,7 +284,7 @@ def main():
             for v in x:
                 walk(v)
     walk(doc)
-    pynames = sorted({str(utils.PythonIdentifier(p, "field_")) for p in props if p.startswith("zqc_")}, key=lambda s: (-len(s), s))
+    pynames = sorted({str(utils.PythonIdentifier(p, "field_")) for p in props}, key=lambda s: (-len(s), s))
     patterns = {}
     table = []
     for scope in sorted(scopes):
@@ -293,7 +294,7 @@ def main():
                     i = n.find(p)
                     if i >= 0:
                         pre, suf = n[:i], n[i + len(p):]
-                        if pre or suf:
+                        if (pre or suf) and CANARY not in (pre + suf).lower():
                             patterns.setdefault((pre, suf), set()).add(scope)
                         break
                 continue
@@ -308,7 +309,7 @@ def main():
     for k in sorted(dir(builtins)):
         table.append(("python.builtin", k))
     for k in sorted(set(kws) | set(keyword.softkwlist) | {"self", "true", "false", "datetime", "id"} | set(utils.RESERVED_WORDS) - set(dir(builtins))):
-        for v in {k.capitalize(), k.upper(), k.lower(), k + "_", "_" + k}:
+        for v in {k.capitalize(), k.upper(), k.lower()}:
             if v != k and v.isidentifier():
                 table.append(("python.variant", v))
     table = sorted(set(table))
